@@ -12,6 +12,7 @@ exactly the observed effect list, and keeps the set of model states such schedul
   hostq new <cfg as `host new`> q=<n> now=<ms>                      => ok
   hostq burst <ev>|<ev>|… now=<ms> => n1:[e;e;…] n2:[…]   (or `-`)  => ok | rejected …
   hostq adv <ms> now=<ms> => n1:[…]                                  => ok | rejected …
+  hostq cancel off=<0|1> now=<ms> => n1:[…] w=<ms>                   => ok | rejected …   (then every line must observe `-`)
   hostq stats                                                        => counters (reporting only)
 `<ev>` = `ev <node> nbirth|ndeath|ndata|dbirth|ddeath|ddata k=v…` | `inv <node>` | `offline` | `online`.
 -/
@@ -200,6 +201,8 @@ structure HostQD where
   q : Nat := 1024
   sts : List State := []
   stats : HostQStats := {}
+  /-- `Application::run` has returned (a `cancel` request was admitted): the host is gone -/
+  stopped : Bool := false
 
 def parseAppEv (ws : List String) : Option AppEv :=
   match ws with
@@ -286,9 +289,30 @@ def stepHostQ (d : HostQD) (ws : List String) : HostQD × String :=
       match parseCfg rest, kvNat rest "q" with
       | some c, some q =>
         let σ0 : State := { State.init now with online := true }
-        ({ d with cfg := c, q := q, sts := [σ0] }, "ok")
+        ({ d with cfg := c, q := q, sts := [σ0], stopped := false }, "ok")
       | _, _ => (d, "bad-op")
+    | "cancel" :: offW :: _ =>
+      -- `AppClient::cancel()` between two bursts (every task at rest, inbox and queues empty): the event loop takes
+      -- the stop request and from then on dispatches nothing (`Host.runStep`, phase `stopping`); the actors and their
+      -- timeout tasks live on until `run()` returns: at once on an offline host, with the final Offline (`off=1`,
+      -- delivered 1 ms later, noted by the event loop only) or when the bounded wait runs out (`stopWaitMs`)
+      if d.stopped then (d, if obsW == ["-"] then "ok" else "rejected after-return")
+      else
+      match kvNat [offW] "off", obsW.getLast?.bind (fun t => kvNat [t] "w"), parseObsQ obsW.dropLast with
+      | some off, some w, some obs =>
+        if off > 1 then (d, "bad-op")
+        else
+          let qs := d.sts.flatMap fun σ =>
+            let wExp := if !σ.online then 0 else if off == 1 then 1 else stopWaitMs
+            if wExp != w then []
+            else advQ d.cfg d.q obs (now + w) { σ := setClock now { σ with online := σ.online && off != 1 } }
+          let good := qs.filter fun x => exact obs x.em
+          let ends := dedupStates (good.map (·.σ))
+          if good.isEmpty then (d, s!"rejected states={d.sts.length} cancel")
+          else ({ d with sts := ends, stopped := true }, "ok")
+      | _, _, _ => (d, if obsW.getLast? == some "w=never" then "rejected run-never-returned" else "bad-op")
     | "burst" :: rest =>
+      if d.stopped then (d, if obsW == ["-"] then "ok" else "rejected after-return") else
       let evToks := rest.takeWhile fun w => !w.startsWith "now="
       let evs := mapM? (fun s => parseAppEv (words s)) ((joinWith " " evToks).splitOn "|")
       match evs, parseObsQ obsW with
@@ -312,6 +336,7 @@ def stepHostQ (d : HostQD) (ws : List String) : HostQD × String :=
             ({ d with sts := ends, stats := st }, "ok")
       | _, _ => (d, "bad-op")
     | ["adv", ms, _] =>
+      if d.stopped then (d, if obsW == ["-"] then "ok" else "rejected after-return") else
       match ms.toNat?, parseObsQ obsW with
       | some k, some obs =>
         if k = 0 then (d, "bad-op")
